@@ -698,6 +698,60 @@ def d8_exceptions_are_constructible(chk: Check, cl: List[FuncInfo]) -> None:
         raise AnalysisError("library raises in the closure: {}".format(n))
 
 
+def d9_expected_character_is_unescaped(chk: Check) -> None:
+    """After a Search Keyword's closing parenthesis the parser expects one
+    particular character next (`]`), and after a Collector operator `(`.
+    The expectation is met by that character *as syntax*.  An escaped
+    character is text: if `\\]` clears the expectation, the real bracket
+    stays open, the following `)` pops it, and the keyword's type remains
+    pending while arbitrary text is recorded under it -- `[max(a)\\])\\].b`
+    yields (KEYWORD_SEARCH, 'a]]') with text attributes."""
+    from rules.c02 import parser_roles
+    prog = chk.prog
+    chk.rule("C14-D9", "the parser clears its 'next character must be' "
+             "expectation only for an unescaped character", floor=1)
+    roles = parser_roles(prog)
+    fi, char, loop = roles["fi"], roles["char"], roles["loop"]
+    first = next((st for st in loop.body if isinstance(st, ast.If) and
+                  isinstance(st.test, ast.Name)), None)
+    for st in loop.body:
+        if isinstance(st, ast.If) and isinstance(st.test, ast.Name) and \
+                any(isinstance(a, ast.Assign) and src(a.targets[0]) ==
+                    st.test.id and src(a.value) == "False" for a in st.body):
+            first = st
+            break
+    if first is None:
+        raise AnalysisError("escape flag of the parser not found")
+    esc = first.test.id          # type: ignore[attr-defined]
+    n = 0
+    for st in walk_local(loop):
+        if not isinstance(st, ast.If):
+            continue
+        clears = [a for a in st.body if isinstance(a, ast.Assign) and
+                  isinstance(a.value, ast.Constant) and a.value.value is None]
+        if not clears:
+            continue
+        must = src(clears[0].targets[0])
+        t = src(st.test).replace(" ", "")
+        if "{}=={}".format(char, must) not in t:
+            continue
+        n += 1
+        text = "if {}: {} = None".format(src(st.test)[:50], must)
+        conj = st.test.values if isinstance(st.test, ast.BoolOp) and \
+            isinstance(st.test.op, ast.And) else [st.test]
+        if any(src(v).replace(" ", "") == "not" + esc for v in conj):
+            chk.ok("C14-D9", fi, st, text, "only when not " + esc)
+        else:
+            chk.fail("C14-D9", fi, st, text,
+                     "an escaped `{}`-character satisfies the expectation "
+                     "although it is recorded as text: the demarcation it "
+                     "should have closed stays open and a later character "
+                     "closes the wrong one, leaving a bracketed segment "
+                     "type pending over ordinary text".format(must))
+    if n < 1:
+        raise AnalysisError("expectation-clearing statement not found")
+
+
 def d7_attrs_become_text_by_conversion(chk: Check) -> None:
     """The attributes of a segment are text, an int (INDEX), or one of the
     terms objects (SearchTerms, CollectorTerms, SearchKeywordTerms -- a
@@ -749,4 +803,5 @@ def run(chk: Check) -> None:
     d6b_final_store_takes_text_kinds(chk)
     d7_attrs_become_text_by_conversion(chk)
     d8_exceptions_are_constructible(chk, cl)
+    d9_expected_character_is_unescaped(chk)
     chk.notes.append("closure: {} functions".format(len(cl)))
